@@ -36,6 +36,7 @@ type step struct {
 type behaviour struct {
 	Ops    []step
 	Origin string
+	idx    int
 }
 type cfg struct {
 	Name     string
@@ -166,7 +167,7 @@ func opsOf(ops []step) []opDesc {
 	return out
 }
 func (s *sess) ctx(b *behaviour, si int, extra map[string]interface{}) map[string]interface{} {
-	m := map[string]interface{}{"cfg": s.c, "compression": s.comp, "variant": s.variant, "origin": b.Origin,
+	m := map[string]interface{}{"cfg": s.c, "compression": s.comp, "variant": s.variant, "origin": b.Origin, "behaviour": b.idx,
 		"ops": opsOf(b.Ops[:si+1]), "ideal": b.Ops[si].Ideal, "step": si}
 	for k, v := range extra {
 		m[k] = v
@@ -232,6 +233,7 @@ func runReplay(path string, seed int64, dir string, selfFlip bool, res *vh.Resul
 	flipped := false
 	for bi := range in.Behaviours {
 		b := &in.Behaviours[bi]
+		b.idx = bi
 		if selfFlip && !flipped {
 			// binding self-test: corrupt one expected byte of the last step that has one
 			for si := len(b.Ops) - 1; si >= 0; si-- {
@@ -285,7 +287,7 @@ func (s *sess) guard(b *behaviour, si int, what string, f func() error) (err err
 // stepGuard runs one step; a panic or a hang of the real code is a violation of its own. Returns false = stop.
 func (s *sess) stepGuard(b *behaviour, si int, body func() bool) bool {
 	cont := false
-	p, h, msg := vh.Guard(60*time.Second, func() { cont = body() })
+	p, h, msg := vh.Guard(120*time.Second, func() { cont = body() })
 	if p || h {
 		s.res.Violate(s.kind+"."+b.Ops[si].Op+":panic-or-hang", fmt.Sprintf("cfg %s: %s during %s: %s", s.c.Name, b.Ops[si].Op, show(b.Ops[:si+1]), msg), s.ctx(b, si, nil))
 		if h {
@@ -703,7 +705,13 @@ func (s *sess) replayEntries(b *behaviour) {
 			if e.abs < disc {
 				continue
 			}
-			for _, extra := range []int{0, 2, -1} {
+			// (a buffer longer than the entry is only meaningful for the single-file appendable: the multi-file one goes
+			// on reading at off+n, which is no entry handle in a compressed appendable)
+			extras := []int{0, -1}
+			if !c.Multi {
+				extras = []int{0, 2, -1}
+			}
+			for _, extra := range extras {
 				n := len(e.atoms) + extra
 				if n <= 0 {
 					continue
